@@ -129,6 +129,14 @@ EXTRA_RT = [
     ('gradientUnits', '<linearGradient id="g" gradientUnits="%s" x1="0" x2="50"><stop offset="0" stop-color="red"/><stop offset="1" stop-color="blue"/>'
      '</linearGradient><rect x="10" width="50" height="50" fill="url(#g)"/>', ['userSpaceOnUse', 'objectBoundingBox'],
      lambda t: [t['linear_gradients'][0][k] for k in ('x1', 'x2', 'ts')], {}),
+    ('letter-spacing', TEXT % (' letter-spacing="%s"', ''), ['-2', '3', '0'], lambda t: first_of(t, 'text')['chunks'][0]['spans'][0]['letter_spacing'], dict(pt=True)),
+    ('word-spacing', '<text x="10" y="50" font-size="20" word-spacing="%s">a b c</text>', ['-4', '5'],
+     lambda t: first_of(t, 'text')['chunks'][0]['spans'][0]['word_spacing'], dict(pt=True)),
+    ('stroke-dashoffset', '<path d="M 10 10 L 90 10" stroke="black" stroke-dasharray="5 3" stroke-dashoffset="%s"/>', ['-2', '2'],
+     lambda t: first_path(t)['stroke']['dashoffset'], {}),
+    ('id prefix', '<linearGradient id="pre-g"><stop offset="0" stop-color="red"/><stop offset="1" stop-color="blue"/></linearGradient>'
+     '<rect width="50" height="50" fill="url(#%s)"/>', ['pre-g'],
+     lambda t: [len(t['linear_gradients']), first_path(t)['fill']['paint']['k']], dict(prefix='pre-')),
     ('lighting in', FILTER % '<feFlood flood-color="red" result="a"/><feOffset dx="1" result="b"/><feDiffuseLighting in="%s"><feDistantLight azimuth="10" elevation="20"/></feDiffuseLighting>',
      ['SourceGraphic', 'a', 'b'], lambda t: t['filters'][0]['primitives'][2]['kind']['in'], {}),
 ]
@@ -156,17 +164,6 @@ def attr_text(enum, attr, value):
 # ------------------------------------------------------------------------------------------------
 # classes of the rendering oracle
 # ------------------------------------------------------------------------------------------------
-def lighting_input_dropped(d):
-    for f in d['filters']:
-        ps = f['primitives']
-        for i, p in enumerate(ps):
-            if p['kind']['k'] in ('DiffuseLighting', 'SpecularLighting'):
-                dflt = 'SourceGraphic' if i == 0 else {'ref': ps[i - 1]['result']}
-                if p['kind']['in'] != dflt:
-                    return True
-    return False
-
-
 def tree_classes(d, w, first_trip_differs=True):
     """known classes whose predicate holds for the tree T (dump) and the options; each explains a rendering difference"""
     out = []
@@ -197,8 +194,6 @@ def tree_classes(d, w, first_trip_differs=True):
         ids.setdefault(c['id'], set()).add(c['ptr'])
     if any(len(v) > 1 and re.fullmatch(r"cp\d+", i) for i, v in ids.items()):
         out.append('colr-glyph-clip-id')
-    if lighting_input_dropped(d):
-        out.append('lighting-input-dropped')
     if w.get('pt'):
         have = set(x['ptr'] for c in ('linear_gradients', 'radial_gradients', 'patterns') for x in d[c])
         if any(via == 'span' and ptr not in have for k, ptr, i, ctx, via in wk.defs if k != 'textpath'):
@@ -295,7 +290,7 @@ def run(ctx):
         except (KeyError, IndexError, TypeError) as e:
             vb = 'missing (%s)' % e
         if va != vb:
-            cls = 'lighting-input-dropped' if c['enum'] == 'lighting in' else None
+            cls = None
             text = ("enum-rt: %s=%r is %s in the tree, but %s after writing and parsing again" % (c['enum'], c['spelling'], va, vb))
             rep = dict(doc=c['doc'], wopts=c07.wopts_str(c['wo']), op='c08-rt', before=va, after=vb, text=r.get('text', '')[:1500])
             if cls:
@@ -308,7 +303,7 @@ def run(ctx):
 
     # ------------------------------------------------------------------ S: round-trip rendering
     wit = sorted(os.path.join(WITNESS, f) for f in os.listdir(WITNESS) if f.endswith('.svg'))
-    strict = set(k for k, f in enumerate(wit) if os.path.basename(f) in ('F08.svg', 'F09.svg', 'F13.svg'))
+    strict = set(k for k, f in enumerate(wit) if os.path.basename(f) in ('F08.svg', 'F09.svg', 'F13.svg', 'F46.svg'))
     corpus = vlib.corpus_files()
     ngen = 150 if quick else 1500
     gen_docs = [refgen.gen_ref_doc(rng, id_style=['plain', 'genlike', 'weird'][i % 3], big=(i % 5 == 0)) for i in range(ngen)]
@@ -319,7 +314,7 @@ def run(ctx):
         '<svg %s width="100" height="100"><image x="0" y="0" width="50" height="50" xlink:href="data:image/svg+xml;base64,%s"/>'
         '<symbol id="s" viewBox="0 0 10 10"><circle cx="5" cy="5" r="8" fill="blue"/></symbol>'
         '<use xlink:href="#s" x="30" y="30" width="40" height="40"/></svg>' % (NS, base64.b64encode(inner.encode()).decode()),
-        # F46: lighting primitive with an explicit input that is not the previous result
+        # F46 (fixed): lighting primitive with an explicit input that is not the previous result; must pass
         enum_doc(FILTER % '<feFlood flood-color="red" flood-opacity="0.5" result="a"/><feOffset in="SourceGraphic" dx="5" result="b"/>'
                  '<feDiffuseLighting in="a" lighting-color="white"><feDistantLight azimuth="45" elevation="30"/></feDiffuseLighting>'),
     ]
@@ -345,11 +340,23 @@ def run(ctx):
     for ci, ((k, w), o) in enumerate(zip(cases, outs)):
         r = jload(o)
         lab = "%s [%s]" % (labels[k], c07.wopts_str(w))
+        foreign = docs[k].startswith('@' + WITNESS) and k not in strict
+        if ('crash' in r or 'panic' in r) and foreign:
+            hist['rejected'] += 1          # a witness of another property's open finding
+            continue
         if 'crash' in r or 'panic' in r:
-            ctx.violation("round trip crashed: %s: %s" % (lab, str(r)[:300]), dict(doc=docs[k], wopts=c07.wopts_str(w), op='c08-render', result=r))
+            if nviol < 8:
+                ctx.violation("round trip crashed: %s: %s" % (lab, str(r)[:300]), dict(doc=docs[k], wopts=c07.wopts_str(w), op='c08-render', result=r))
+            nviol += 1
+            continue
+        if ('panic' in str(r.get('error', '')) or 'render_panic' in r) and not (docs[k].startswith('@' + WITNESS) and k not in strict):
+            # corpus files and generated documents parse and render today
+            if nviol < 8:
+                ctx.violation("parsing or rendering crashed: %s: %s" % (lab, str(r)[:300]), dict(doc=docs[k], wopts=c07.wopts_str(w), op='c08-render', result=r))
+            nviol += 1
             continue
         if 'error' in r or 'render_panic' in r:
-            # not parsable / not renderable at all: C01 / C02 own that; nothing to round-trip
+            # not parsable / not renderable at all (a witness of another property's open finding): nothing to round-trip
             hist['rejected'] += 1
             ctx.note_case('rej/' + lab, nontrivial=False)
             continue
@@ -443,6 +450,16 @@ def run(ctx):
                 ctx.violation("model counterexample: write_num (source-derived constants) panics or misses the error bound for %s at precision %d" % (v, p),
                               dict(doc='<svg %s width="10" height="10"><path d="M %s 1 L 2 3" stroke="black"/></svg>' % (NS, v),
                                    wopts=c07.wopts_str(dict(cp=p)), op='c07-write', failed_files=res['failed'], broken_ties=broken))
+                found = True
+        if not found:
+            # the writer against the number model (with a broken tie: against the last tables that could be generated)
+            vals = [c07.f32(v) for v in (0.012345678, 0.0012345678, 0.098765432, 0.5, 105.5, 1.2345678, 3000000000.0, -3000000000.0,
+                                         0.00012345678, 7.125, 2147483648.0, 123.456)]
+            n, badn = c07.write_num_tie(ctx, binp, [(8, vals[0:4]), (8, vals[4:8]), (8, vals[8:12])])
+            for d, p, v, tok in (badn or [])[:1]:
+                ctx.violation("write_num: coordinate %r is written as %s at the default precision %d; Model/WriteNum.v (|error| <= 1/(2*10^p)) disagrees"
+                              % (v, tok, p), dict(doc=d, wopts=c07.wopts_str(dict(cp=p)), op='c07-write', value=v, written=tok,
+                                                  failed_files=res['failed'], broken_ties=broken))
                 found = True
         if not found:
             ctx.violation("C08 proof obligations no longer check: %s %s" % (res['failed'] + res['audit'], [b['name'] + ': ' + b['err'][:200] for b in broken]),
